@@ -224,6 +224,16 @@ def run(tier):
         c03.run_history(rec2, pair, [{"s": "A", "op": "get_many", "fate": "oversize"}, {"s": "B", "op": "get", "fate": "answered"}, {"s": "A", "op": "getbulk", "fate": "answered"}], k)
         runs.append((a, rec2.n, ("history", "oversize", pair, k)))
         chk.case(("history", "oversize", pair, k))
+    # OCTET STRING fields whose CONTENTS look like something else: runs of twelve and more zero octets (IPv6-format engine ids of ::1 /
+    # fe80::1, zero-padded ids, binary user names - the msgAuthenticationParameters placeholder is twelve zero octets too), runs of ff
+    for k, (nm, cfgz) in enumerate(zero_run_cfgs()):
+        a = rec2.n
+        sz = rawdrv.RawSession(rec2, cfgz)
+        for op in (("get", "get_many", "getnext", "getbulk", "refresh") if cfgz.ver == "v3" else ("get", "get_many", "getnext", "getbulk")):
+            sz.send(op, [] if op == "refresh" else ["1.3.6.1.2.1.1.%d.0" % (k % 7 + 1)] * (2 if op == "get_many" else 1), maxrep=3 if op == "getbulk" else None)
+        sz.close()
+        runs.append((a, rec2.n, ("history", "zero-run", (nm,), k)))
+        chk.case(("history", "zero-run", nm))
     rec2.close()
     v2 = trace.validate_parallel("TraceSession.tla", "TraceSession.cfg", rec2.events, [(a, b) for a, b, _ in runs], k=4, name="c15api")
     for i, r in enumerate(v2["results"]):
@@ -274,6 +284,19 @@ def run(tier):
     return chk.finish()
 
 
+def zero_run_cfgs():
+    out = []
+    engines = [("ipv6-loopback", bytes([0x80, 0, 0x1f, 0x88, 2] + [0] * 15 + [1])), ("ipv6-linklocal", bytes([0x80, 0, 0x1f, 0x88, 2, 0xfe, 0x80] + [0] * 13 + [1])),
+               ("zero-padded-32", bytes([0x80, 0, 0x1f, 0x88, 4, 9] + [0] * 26)), ("ff-run", bytes([0x80, 0, 0x1f, 0x88, 5] + [0xff] * 14)), ("eleven-zeros", bytes([0x80, 0, 0, 2, 1] + [0] * 11 + [7]))]
+    for en, eng in engines:
+        for auth, akm in (("md5", b"authpass10"), ("sha1", b"authpass20"), ("none", b"")):
+            out.append(("%s-%s" % (en, auth), rawdrv.Cfg("v3", user="zr", engine=eng, auth=auth, akt="password", akm=akm)))
+    out.append(("zero-user-md5", rawdrv.Cfg("v3", user="\x00" * 14, engine=engines[4][1], auth="md5", akt="password", akm=b"authpass10")))
+    out.append(("zero-user-sha1-aes", rawdrv.Cfg("v3", user="a" + "\x00" * 12, engine=engines[0][1], auth="sha1", akt="password", akm=b"authpass20", priv="aes", pkt="password", pkm=b"privpass22")))
+    out.append(("zero-community", rawdrv.Cfg("v2c", community="\x00" * 13)))
+    return out
+
+
 def replay(path):
     d = json.load(open(path))
     r = d["replay"]
@@ -292,6 +315,20 @@ def replay(path):
         rec3 = trace.Recorder("c15rows-replay")
         c08.row_runs(rec3, _scripts.std_cfgs()["v2c"], ag.Agent())
         v = trace.validate("TraceSession.tla", "TraceSession.cfg", rec3.close())
+        if v["accepted"] and not v["fails"]:
+            print("replay: accepted")
+            return 0
+        print("VIOLATION property=C15 replay=%s" % path)
+        return 1
+    if r.get("kind") == "session-message" and r.get("history") == "zero-run":
+        rec = trace.Recorder("c15-replay")
+        for nm, cfgz in zero_run_cfgs():
+            if nm == r["pair"][0]:
+                sz = rawdrv.RawSession(rec, cfgz)
+                for op in (("get", "get_many", "getnext", "getbulk", "refresh") if cfgz.ver == "v3" else ("get", "get_many", "getnext", "getbulk")):
+                    sz.send(op, [] if op == "refresh" else ["1.3.6.1.2.1.1.1.0"] * (2 if op == "get_many" else 1), maxrep=3 if op == "getbulk" else None)
+                sz.close()
+        v = trace.validate("TraceSession.tla", "TraceSession.cfg", rec.close())
         if v["accepted"] and not v["fails"]:
             print("replay: accepted")
             return 0
